@@ -92,7 +92,8 @@ def dst_line(snap, ids, run_start_ns, k):
         elif e["kind"] == "f":
             items.append("f:%s:%d:%d:%d" % (ids.path(rel), e["size"], canon_mtime(e["mtime_ns"], run_start_ns, k), ids.content(e["sha"], e["size"])))
         else:
-            items.append("l:%s" % ids.path(rel))
+            # a symlink entry is an opaque leaf for the engine model: a file whose content is the link text
+            items.append("f:%s:%d:%d:%d" % (ids.path(rel), len(e["target"].encode()), canon_mtime(e["mtime_ns"], run_start_ns, k), ids.content("L:" + e["target"], 1)))
     return ",".join(sorted(items)) or "-"
 
 
@@ -123,6 +124,8 @@ def run_once(sc, src, dst, fl, ids, k=1, extra_env=None, extra_args=(), select=N
             dsts.append("d:%s:%d:%d" % (ids.path(rel), e.get("size", 4096), e["mtime_ns"]))
         elif kind == "f":
             dsts.append("f:%s:%d:%d:%d" % (ids.path(rel), e["size"], e["mtime_ns"], ids.content(e["sha"], e["size"])))
+        elif kind == "l" and e["kind"] == "l":
+            dsts.append("f:%s:%d:%d:%d" % (ids.path(rel), len(e["target"].encode()), e["mtime_ns"], ids.content("L:" + e["target"], 1)))
     env = {"SY_VERIF_DELTA_THRESHOLD": str(fl.get("big", BIG))}
     if extra_env:
         env.update(extra_env)
